@@ -14,6 +14,7 @@ mod c04;
 mod c07;
 mod c08;
 mod c09;
+mod c13;
 mod c15;
 mod c16;
 mod c18;
@@ -58,6 +59,7 @@ fn real_main() {
                 "C07" => c07::replay(&toks, &mut out),
                 "C08" => c08::replay(&toks, &mut out),
                 "C09" => c09::replay(&toks, &mut out),
+                "C13" => c13::replay(&toks, &mut out, req),
                 "C14" | "C16" => c16::replay(&toks, &mut out),
                 "C15" | "C17" => c15::replay(&toks, &mut out),
                 "C18" => c18::replay(&toks, &mut out),
@@ -81,6 +83,7 @@ fn real_main() {
             "C07" => c07::generate(&mut rng, thorough, &mut out),
             "C08" => c08::generate(&mut rng, thorough, &mut out),
             "C09" => c09::generate(&mut rng, thorough, &mut out),
+            "C13" => c13::generate(&mut rng, thorough, &mut out),
             "C14" => c16::generate(&mut rng, thorough, &mut out, true),
             "C16" => c16::generate(&mut rng, thorough, &mut out, false),
             "C15" => c15::generate_pipes(&mut rng, thorough, &mut out),
